@@ -123,6 +123,9 @@ def evaluate(case, link=False):
         prog = parse(src)
         req = list(Reduino._collect_required_libraries(prog))
         cpp = emit(prog)
+        # the same parsed program asked again (target() may emit before it collects): emitting is not allowed to change what is asked for
+        req_after = list(Reduino._collect_required_libraries(prog))
+        cpp_again = emit(prog)
     except ValueError as e:
         return "rejected", []
     fails = []
@@ -130,6 +133,10 @@ def evaluate(case, link=False):
     def bad(b, e, o):
         fails.append({"bucket": b, "case": case, "expected": str(e), "observed": str(o)})
 
+    if sorted(req_after) != sorted(req):
+        bad("lib_deps-change-after-emit", sorted(req), sorted(req_after))
+    if cpp_again != cpp:
+        bad("second-emit-differs", "the same sketch for the same parsed program", "headers " + str(INCLUDE.findall(strip_literals(cpp_again))))
     bare = strip_literals(cpp)
     headers = INCLUDE.findall(bare)
     inc = [HEADER_TO_LIB[h] for h in headers if h in HEADER_TO_LIB]
